@@ -216,4 +216,11 @@ def State.reopen (s : State) : State :=
     gcq := []
     bcast := [] }
 
+/-- the history scan of the streaming read (`Store::read`) with the wall clock read afresh for
+    every frame: `clock j` is the time at which the scan examines the j-th frame it is handed
+    (`readHistGo` is the special case of a clock that stands still) -/
+def scanClock (clock : Nat → Nat) : Nat → List Frame → List Frame
+  | _, [] => []
+  | j, f :: rest => if f.expired (clock j) then scanClock clock (j + 1) rest else f :: scanClock clock (j + 1) rest
+
 end Xs
